@@ -518,6 +518,9 @@ func (ld *Layerdefs) Makedirs(name string) error {
 				return err
 			}
 		}
+		if layer.State == Layerstate_incomplete && !ld.opts.Pretend {
+			layer.State = Layerstate_complete
+		}
 		ld.findLayerstate(layer)
 	}
 	return nil
